@@ -97,6 +97,8 @@ pub fn where_holds_other(name: &str, case: &crate::anycase::AnyCase, _v: &Violat
     match (name, case) {
         ("any", _) => true,
         ("cardinality-network", AnyCase::Cli(c)) => c.args.iter().any(|a| a == "cardinality-network"),
+        // a DRAT proof is asked for while the resolver that learns nothing is selected
+        ("proof-with-no-learning", AnyCase::Cli(c)) => c.proof && c.args.iter().any(|a| a == "no-learning"),
         // `var {..}: x = y` / `var ..: x = y` with y declared over a set: the initialiser of a
         // set-domain declaration is dropped by the parser, and an alias of a set-domain variable
         // takes that variable's own domain
